@@ -17,7 +17,10 @@ import common
 from props import c08
 
 
-def abstract_program(seed, broken=False):
+FEATURES = ["none", "tri", "gc", "arrn", "depgen"]
+
+
+def abstract_program(seed, broken=False, feature="none"):
     """list of items {name, text}; references to other items are written @name@"""
     r = random.Random(seed)
     c1 = r.choice([2, 3, 4])
@@ -51,8 +54,27 @@ def abstract_program(seed, broken=False):
         for it in items:
             if it["name"] == k:
                 it["text"] = it["text"].replace("-> i32 {", "-> bool {").replace("-> i64 {", "-> bool {").replace("-> @D1@ {", "-> bool {")
+    extra = []
+    if feature == "tri":
+        # a recursive function called from a comptime block whose value is needed while main is inferred
+        add("tri", "tri :: (n: usize) -> usize { if n == 0 { 0 } else { n + @tri@(n - 1) } }")
+        extra = ["    row : [comptime { @tri@(@C1@) }] i32;", "    rl := row.len; emit(^rl, 8); nl();"]
+    elif feature == "gc":
+        # a non-function global whose comptime block calls mutually recursive functions
+        add("GC", "GC :: comptime { @even@(%d) };" % r.randrange(1, 6))
+        extra = ["    g : bool = @GC@; emit(^g, 1); nl();"]
+    elif feature == "arrn":
+        # an array type whose length is a global that is another global that is a comptime block
+        add("M4", "M4 : usize : comptime { 2 + %d };" % r.randrange(1, 4))
+        add("N4", "N4 :: @M4@;")
+        add("Arr4", "Arr4 :: [@N4@] i32;")
+        extra = ["    a4 : @Arr4@; al := a4.len; emit(^al, 8); nl();"]
+    elif feature == "depgen":
+        # a generic whose second comptime parameter has the type given by the first
+        add("dpick", "dpick :: (comptime T: type, comptime v: T, x: T) -> T { x + v }")
+        extra = ["    dp := @dpick@(i32, %d, 7); emit(^dp, 4); nl();" % r.randrange(1, 50)]
     n1, n2 = r.randrange(1, 9), r.randrange(1, 9)
-    main = ["main :: () -> i32 {",
+    main = ["main :: () -> i32 {"] + extra + [
             "    v := @mk@(%d);" % n1,
             "    t := @total@(v); emit(^t, 8); nl();",
             "    c : usize = @C3@; emit(^c, 8); nl();",
@@ -104,7 +126,8 @@ def run(chk):
     jobs, meta = [], []
     for p in range(nprog):
         broken = p % 4 == 3
-        items = abstract_program(chk.seed * 31 + p, broken)
+        feature = FEATURES[(p // 4) % len(FEATURES)] if not broken else "none"
+        items = abstract_program(chk.seed * 31 + p, broken, feature)
         iid = hashlib.sha256(json.dumps(items).encode()).hexdigest()[:16]
         n = len(items)
         others = [it["name"] for it in items if it["name"] != "main"]
@@ -129,10 +152,10 @@ def run(chk):
         for vname, o, fo in variants:
             files = arrange(items, o, fo)
             jobs.append({"id": "j%d" % len(jobs), "files": files, "run": True, "timeout_ms": 30000})
-            meta.append((p, iid, vname, broken))
+            meta.append((p, iid, vname, broken, feature))
     results = common.run_batch(jobs, chk.wd, "ord", par=12)
     recs = []
-    for (p, iid, vname, broken), r in zip(meta, results):
+    for (p, iid, vname, broken, feature), r in zip(meta, results):
         kinds = sorted(d["kind"] for d in r["diags"] if d["sev"] == "error")
         crashed = r.get("panic") or r.get("crash") or r.get("cranelift_err")
         run_ = r.get("run") or {}
@@ -156,15 +179,18 @@ def run(chk):
         if k in seen:
             continue
         seen.add(k)
-        p, iid, vname, broken = meta[k]
+        p, iid, vname, broken, feature = meta[k]
         f = first[iid]
-        chk.violation({"kind": "arrangement", "variant": vname.split("/")[1], "broken": broken},
+        pan = results[k].get("panic") or results[f].get("panic") or {}
+        from props import c06
+        chk.violation({"kind": "arrangement", "feature": feature, "broken": broken,
+                       "site": c06.site_of(pan) if pan else "", "kinds": ",".join(sorted(set(recs[k]["kinds"]) ^ set(recs[f]["kinds"])))},
                       {"variant": vname, "first_variant": meta[f][2], "this": {"obs": recs[k]["obs"], "diag_kinds": recs[k]["kinds"]},
                        "first": {"obs": recs[f]["obs"], "diag_kinds": recs[f]["kinds"]},
                        "files": jobs[k]["files"], "first_files": jobs[f]["files"],
                        "how": "same definitions, other order / partition into files; compiled, linked, run"})
     # sanity: valid programs must actually run (otherwise the comparison is vacuous)
-    nvalid = sum(1 for (p, iid, v, broken), r in zip(meta, recs) if not broken and r["obs"][0] and r["obs"][2] is not None)
+    nvalid = sum(1 for (p, iid, v, broken, ft), r in zip(meta, recs) if not broken and r["obs"][0] and r["obs"][2] is not None)
     chk.cov["valid_arrangements_run"] = nvalid
     chk.cov["broken_arrangements"] = sum(1 for m in meta if m[3])
     if nvalid < sum(1 for m in meta if not m[3]) // 2:
